@@ -232,6 +232,7 @@ def evaluate(sim, scn, reqs, results, stops, status, knobs, stats=None):
                             "source": "agen", "last_anext": s.last_anext, "stop": kind,
                             "cause": _cause(rs, stop, rr), "abort_phase": _phase(stop, rr),
                             "stream_announced": list(s.path) in announced_paths,
+                            "result_kind": str(rr.kind),
                             "unconsumed_aborted_result": _unconsumed([stop], [rr]),
                             "reaction": stop.reaction if kind == "abort" else "-"},
                             {"request": i, "path": list(s.path), "pulls": s.pulls}))
@@ -248,6 +249,7 @@ def evaluate(sim, scn, reqs, results, stops, status, knobs, stats=None):
                         "source": s.kind, "last_anext": s.last_anext, "stop": kind,
                         "cause": _cause(rs, stop, rr), "abort_phase": _phase(stop, rr),
                         "stream_announced": list(s.path) in announced_paths,
+                        "result_kind": str(rr.kind),
                         "unconsumed_aborted_result": _unconsumed([stop], [rr]),
                         "reaction": stop.reaction if kind == "abort" else "-"},
                         {"request": i, "path": list(s.path), "pulls": s.pulls}))
